@@ -132,6 +132,9 @@ enum GOp {
     MapWithIndex(u64),
     /// the user code (closure / iterator `next`) of the wrapped operation panics on call `.1`
     Panicking(Box<GOp>, usize),
+    /// every cell := b + 100 i + j (None) or := v (Some(v)); re-synchronises a case after a
+    /// panicking in-place map, whose partial effect is not part of the property
+    Resync(u64, Option<u64>),
 }
 
 /// The kinds of iterator the `_with` forms are driven with (`via=`); what matters is the
@@ -193,6 +196,8 @@ impl GOp {
             GOp::Map(k) => format!("map {}", k),
             GOp::MapWithIndex(k) => format!("map_with_index {}", k),
             GOp::Panicking(op, j) => format!("{} panic_at={}", op.line(), j),
+            GOp::Resync(b, None) => format!("renumber {}", b),
+            GOp::Resync(_, Some(v)) => format!("fill {}", v),
         }
     }
     fn name(&self) -> &'static str {
@@ -212,6 +217,7 @@ impl GOp {
             GOp::MapMutWithIndex(..) => "map_mut_with_index",
             GOp::Map(..) => "map",
             GOp::MapWithIndex(..) => "map_with_index",
+            GOp::Resync(..) => "resync",
             GOp::Panicking(op, _) => match op.name() {
                 "map_mut" => "map_mut.panic_at",
                 "map_mut_with_index" => "map_mut_with_index.panic_at",
@@ -244,7 +250,7 @@ impl GOp {
             GOp::RemoveColumn(p) => s.c > 1 && *p < s.c,
             GOp::Retain(_, r, c) => r.count(s.r) > 0 && c.count(s.c) > 0,
             GOp::Transpose | GOp::TransposeMut | GOp::MapMut(_) | GOp::MapMutWithIndex(_) => true,
-            GOp::Map(_) | GOp::MapWithIndex(_) => true,
+            GOp::Map(_) | GOp::MapWithIndex(_) | GOp::Resync(..) => true,
             GOp::Set(r, c, _, _) => *r < s.r && *c < s.c,
         }
     }
@@ -930,6 +936,10 @@ fn gen_panicking_user_code(g: &mut Gen) {
                 ));
                 g.op(op.line());
                 let mut s = op.after(s0);
+                if matches!(base, GOp::MapMut(_) | GOp::MapMutWithIndex(_)) {
+                    // which cells a panicking in-place map got to is not the property's business
+                    g.op(GOp::Resync(3000 + j as u64, None).line());
+                }
                 // the same operation again without the panic, then resizing of the survivor
                 g.op(base.line());
                 s = base.after(s);
@@ -953,6 +963,7 @@ fn with_values(op: &GOp, v: u64) -> GOp {
         GOp::InsertColumnWith(p, vs) => GOp::InsertColumnWith(*p, vec![v; vs.len()]),
         GOp::Set(r, c, _, via) => GOp::Set(*r, *c, v, *via),
         GOp::Panicking(op, j) => GOp::Panicking(Box::new(with_values(op, v)), *j),
+        GOp::Resync(b, _) => GOp::Resync(*b, Some(v)),
         other => other.clone(),
     }
 }
@@ -993,6 +1004,13 @@ fn gen_degenerate(g: &mut Gen) {
                 random_op(g, s, &mut counter)
             };
             s = op.after(s);
+            if let GOp::Panicking(inner, _) = &op {
+                if matches!(**inner, GOp::MapMut(_) | GOp::MapMutWithIndex(_)) {
+                    script.push(op.clone());
+                    script.push(GOp::Resync(6000, None));
+                    continue;
+                }
+            }
             // sometimes the same operation twice
             if g.rng.chance(1, 5) {
                 script.push(op.clone());
@@ -1437,6 +1455,14 @@ pub(crate) fn apply(m: &mut Matrix<u64>, toks: &[&str]) -> Option<Result<(), Pan
                 })
             })
         }
+        "renumber" => {
+            let b = val(1);
+            catch(|| m.map_mut_with_index(|_, i, j| b + 100 * i as u64 + j as u64))
+        }
+        "fill" => {
+            let v = val(1);
+            catch(|| m.map_mut(|_| v))
+        }
         "map" => {
             let k = val(1);
             let calls = CallCounter::new(panic_at);
@@ -1606,6 +1632,73 @@ impl Runner {
                     Err(k) => format!("panic ## kind={}", k.as_str()),
                 },
                 Err(k) => format!("clone-panicked {}", k.as_str()),
+            };
+        }
+        // an in-place map whose closure may panic: the property only demands that the survivor
+        // keeps its size, a consistent storage, and old-or-mapped cells; the pattern is aux
+        let inner: &[&str] = if toks[0] == "try" { &toks[1..] } else { toks };
+        if (inner[0] == "map_mut" || inner[0] == "map_mut_with_index") && opt_arg("panic_at", inner).is_some() {
+            let k: u64 = inner[1].parse().expect("u64");
+            let with_index = inner[0] == "map_mut_with_index";
+            let (rows, cols) = m.size();
+            let old: Vec<Vec<Option<u64>>> =
+                (0..rows).map(|i| (0..cols).map(|j| catch(|| m.get(i, j)).ok()).collect()).collect();
+            let mut copy;
+            let target: &mut Matrix<u64> = if toks[0] == "try" {
+                copy = match catch(|| m.clone()) {
+                    Ok(c) => c,
+                    Err(k) => return format!("clone-panicked {}", k.as_str()),
+                };
+                &mut copy
+            } else {
+                m
+            };
+            let outcome = apply(target, inner).expect("map op");
+            return match outcome {
+                Ok(()) => answer(Ok(()), target),
+                Err(kind) => {
+                    let (r2, c2) = target.size();
+                    let len = storage_len(target);
+                    let mut bad = vec![];
+                    let mut pattern: Vec<String> = vec![];
+                    for i in 0..rows.min(r2) {
+                        let mut row = String::new();
+                        for j in 0..cols.min(c2) {
+                            let f = |x: u64| if with_index { x + k * (i as u64 + 1) + j as u64 } else { x + k };
+                            let mark = match (old[i][j], catch(|| target.get(i, j))) {
+                                (Some(o), Ok(n)) if n == o && n == f(o) => '=',
+                                (Some(o), Ok(n)) if n == o => 'o',
+                                (Some(o), Ok(n)) if n == f(o) => 'm',
+                                (_, Ok(n)) => {
+                                    bad.push(format!("({},{})={}", i, j, n));
+                                    '?'
+                                }
+                                (_, Err(e)) => {
+                                    bad.push(format!("({},{})=!{}", i, j, e.as_str()));
+                                    '?'
+                                }
+                            };
+                            row.push(mark);
+                        }
+                        pattern.push(row);
+                    }
+                    let storage = if (r2, c2) == (rows, cols) && Some(len) == rows.checked_mul(cols) {
+                        "consistent".to_string()
+                    } else {
+                        format!("{}-elements-for-{}x{}-was-{}x{}", len, r2, c2, rows, cols)
+                    };
+                    let cells = if bad.is_empty() { "old-or-mapped".to_string() } else { format!("bad:{}", bad.join(",")) };
+                    format!(
+                        "panic {}x{} storage={} cells={} ## len={} kind={} pattern={}",
+                        r2,
+                        c2,
+                        storage,
+                        cells,
+                        len,
+                        kind.as_str(),
+                        pattern.join(";")
+                    )
+                }
             };
         }
         if toks[0] == "try" {
